@@ -69,3 +69,29 @@ package ast
 //@   ensures base(self.tail) == old(base(self.tail)) || fresh(self.tail)
 //@   loop 0: invariant cap(self.tail) <= c && (c <= cap(self.tail) || c <= 2 * l + 2) && 0 <= c
 //@   loop 0: decreases l - c
+
+// Set: element i becomes v, every other element below the old size is unchanged,
+// the sequence grows to i+1 if needed (whole-view postcondition).
+//@ func (*linkedNodes).Set props C15
+//@   requires lnWF(self) && 0 <= i && i <= self.size && self.size <= 70368744177664
+//@   modifies self.head, self.tail, self.size, self.tail[_], *self.tail[i / 16 - 1]
+//@   ensures self.size == ite(old(self.size) <= i, i + 1, old(self.size))
+//@   ensures same(lnAt(self, i), v)
+//@   ensures forall j int :: (0 <= j && j < old(self.size) && j != i) ==> same(lnAt(self, j), old(lnAt(self, j)))
+//@   ensures lnWF(self)
+
+//@ func (*linkedNodes).Push props C15
+//@   requires lnWF(self) && self.size <= 70368744177664
+//@   modifies self.head, self.tail, self.size, self.tail[_], *self.tail[self.size / 16 - 1]
+//@   ensures self.size == old(self.size) + 1
+//@   ensures same(lnAt(self, old(self.size)), v)
+//@   ensures forall j int :: (0 <= j && j < old(self.size)) ==> same(lnAt(self, j), old(lnAt(self, j)))
+//@   ensures lnWF(self)
+
+//@ func (*linkedNodes).Pop props C15
+//@   requires self == nil || (lnWF(self) && self.size <= 70368744177664)
+//@   modifies self.head, self.tail, self.size, self.tail[_], *self.tail[(self.size - 1) / 16 - 1]
+//@   ensures (self != nil && old(self.size) > 0) ==> self.size == old(self.size) - 1
+//@   ensures (self != nil && old(self.size) == 0) ==> self.size == 0
+//@   ensures self != nil ==> (forall j int :: (0 <= j && j < self.size) ==> same(lnAt(self, j), old(lnAt(self, j))))
+//@   ensures self != nil ==> lnWF(self)
